@@ -1029,6 +1029,9 @@ def p13(rep, w, prop='C02'):
                 st = it.transfer_prefix(bi, si)
                 iv = it.eval_op(st, s_['r']['o'])
                 lo, hi = cn.TYPE_RANGE.get(tgt, (0, 0))
+                if src == 'char' and tgt == 'u8' and _ascii_guarded(f, bi, op_place(s_['r']['o'])):
+                    r.ok('%s / char as u8 behind a test that the character is one byte long (is_ascii / len_utf8() == 1)' % f.path.replace('yarel::', ''))
+                    continue
                 r.check(iv[0] >= lo and iv[1] <= hi, '%s / %s as %s' % (f.path.replace('yarel::', ''), src, tgt),
                         '%s narrows a %s to %s and the operand can be as large as %s: the value wraps (the 256th slot becomes slot 0, a letter beyond Latin-1 becomes an ASCII one)'
                         % (f.path, src, tgt, 'unbounded' if iv[1] >= cn.INF else iv[1]), f.loc(s_.get('sp')))
@@ -1036,6 +1039,43 @@ def p13(rep, w, prop='C02'):
             cn.TYPE_RANGE.clear()
             cn.TYPE_RANGE.update(saved)
     r.note('narrowing casts outside the compiler: %d' % n)
+
+
+def _ascii_guarded(f, cast_block, pl):
+    """the cast of a char sits on the true edge of `c.is_ascii()` or of `c.len_utf8() == 1` for the same character: it is below 128"""
+    if pl is None:
+        return False
+    org = origins(f)
+    dom = f.dominators()
+    mine = set(org.get(pl['l'], ())) | {(('local', pl['l']),)}
+    for bi, t in f.calls():
+        tail = strip_generics(callee_name(t) or '').rsplit('::', 1)[-1]
+        if tail not in ('is_ascii', 'len_utf8') or not t['args']:
+            continue
+        ap = op_place(t['args'][0])
+        if ap is None or not ((set(org.get(ap['l'], ())) | {(('local', ap['l']),)}) & mine):
+            continue
+        for sb in f.normal_blocks():
+            tt = f.blocks[sb]['t']
+            if tt['t'] != 'switch':
+                continue
+            dp = op_place(tt['d'])
+            if dp is None:
+                continue
+            ok = False
+            if tail == 'is_ascii':
+                ok = dp['l'] == t['dst']['l'] or any(q[0][0] == 'call' and q[0][1] == bi for q in org.get(dp['l'], ()))
+            else:
+                for s_ in f.blocks[sb]['s']:
+                    rr = s_.get('r', {})
+                    if (s_.get('d') or {}).get('l') == dp['l'] and rr.get('rv') == 'bin' and rr['op'] == 'Eq':
+                        k = op_const(rr['b']) or op_const(rr['a'])
+                        o = op_place(rr['a']) or op_place(rr['b'])
+                        if k is not None and k.get('v') == 1 and o is not None and (o['l'] == t['dst']['l'] or any(q[0][0] == 'call' and q[0][1] == bi for q in org.get(o['l'], ()))):
+                            ok = True
+            if ok and tt['else'] in dom.get(cast_block, ()) | {cast_block} and tt['else'] not in [cb for v, cb in tt['cases']]:
+                return True
+    return False
 
 
 def p14(rep, w, prop='C02'):
@@ -1066,10 +1106,18 @@ def p14(rep, w, prop='C02'):
     for p_ in sorted(seen):
         g = c.fns[p_]
         bad = []
+        org = None
         for bi, t in g.calls():
             nm = strip_generics(callee_name(t) or '')
             tail = nm.rsplit('::', 1)[-1]
             if tail in ('unwrap', 'expect', 'unwrap_unchecked') and ('Option' in nm or 'Result' in nm) and not (isinstance(t.get('sp'), list) and t['sp'][1]):
+                org = org or origins(g)
+                pl = op_place(t['args'][0]) if t['args'] else None
+                srcs = {strip_generics(q[0][2]).rsplit('::', 1)[-1] for q in org.get(pl['l'], ()) if q[0][0] == 'call'} if pl is not None else set()
+                # char::from_digit(nibble, 16): None only for a digit that is not below the radix - an argument the code computes (a masked
+                # nibble), not data the program chose; every other partial answer (decoding, parsing, searching, indexing, popping) is
+                if srcs and srcs <= {'from_digit'}:
+                    continue
                 bad.append((nm.rsplit('::', 2)[-2] + '::' + tail, t.get('sp')))
         n += 1
         r.check(not bad, '%s / no unwrap' % p_.replace('yarel::', ''),
